@@ -54,6 +54,18 @@ pub fn gen(tier: &str, seed: u64) -> Gen {
     }
     fams.push(("triples of elements of length<=1".to_string(), ntr, thorough));
 
+    // elements that are themselves lists with repeated items (dictionaries with a repeated key):
+    // every string of length <= 7 over {a, *, blank}
+    let dictish = all_strings(&["a", "*", " "], 7);
+    let mut ndict = 0;
+    for s in &dictish {
+        if s.matches(' ').count() >= 3 {
+            cases.push(tl(vec![ts(s), ts("a")]));
+            ndict += 1;
+        }
+    }
+    fams.push(("an element that is a list with repeated items (length<=7 over {a,*,blank}, at least 4 words), viewed as a dictionary in between".to_string(), ndict, true));
+
     // random longer lists incl. Unicode blanks and nested lists
     let mut all: Vec<&str> = ALPHA.to_vec();
     all.extend(EXTRA.iter());
@@ -90,13 +102,20 @@ pub fn run(case: &Term) -> Term {
     // the same elements after each has been viewed as a list, a dictionary and a number (whatever a
     // value has cached, the string form of the list it is an element of is the same)
     let viewed: Vec<Value> = case.strs().iter().map(|s| Value::from(s.as_str())).collect();
+    let mut stable = true;
     for v in &viewed {
-        let _ = v.as_list();
+        let l1 = list_result(v);
         let _ = v.as_dict();
-        let _ = v.as_list();
+        let l2 = list_result(v);
         let _ = v.as_int();
+        let l3 = list_result(v);
+        // the list view of an element is the same before and after its other views
+        stable = stable && l1 == l2 && l2 == l3 && l1 == list_result(&Value::from(v.as_str()));
     }
     let formatted_viewed = Value::from(viewed).as_str().to_string();
+    if !stable {
+        formatted = format!("{}<<list view of an element changed after other views>>", formatted);
+    }
     if formatted_viewed != formatted {
         formatted = format!("{}<<differs after views>>{}", formatted, formatted_viewed);
     }
